@@ -177,7 +177,7 @@ Record case := mkCase {
   k_module : string;
   k_root : ty;                       (* the descriptor as protobuf reflection shows it *)
   k_msg : value;
-  k_strs : list (N * list N);        (* bytes of the interned strings (those short enough to be queried) *)
+  k_strs : list (N * list N);        (* bytes of the interned strings *)
   k_queries : list obs_query;
   (* conditions calling module functions that read the output message, evaluated with the
      output computed by the module and with the same output supplied by the user *)
